@@ -42,6 +42,16 @@ def gen_abf(r, cid, big=False):
     rounds = r.randint(1, 3)
     t_end = F * rounds + r.randint(0, F - 1)
     p_restart = r.choice([0.0, 0.0, 0.1, 0.25])
+    # mode "script": no "shared on" in the configuration, all walkers call "cv bias a share" after the steps in xsteps
+    # mode "oldfmt": restarts go through a state of the older format (no last_* section), right after an exchange
+    mode = r.choice(["freq"] * 5 + ["script"] * 2 + ["oldfmt"])
+    xsteps = set()
+    if mode == "script":
+        xsteps = set(t for t in range(1, t_end + 1) if r.random() < 0.4) or {max(1, t_end)}
+        F = 0
+        p_restart = r.choice([0.0, 0.15, 0.3])
+    elif mode == "oldfmt":
+        p_restart = 0.6
     output = r.random() < 0.5        # output prefix set: end-of-run output files are written at "o" events
     seqs = []
     for w in range(n):
@@ -54,10 +64,12 @@ def gen_abf(r, cid, big=False):
             frac = r.choice([0.5, 0.5, 0.0, 0.25, 0.984375])
             forces = [V.dyadic(r, -8, 8) for _ in range(nd)]
             s.append(["s", w, bins, forces, frac])
+            if t in xsteps:
+                s.append(["x", w])
             if output and r.random() < 0.15:
                 s.append(["o", w])
-            if r.random() < p_restart and t < t_end:
-                s.append(["r", w, r.choice(["text", "binary"])])
+            if r.random() < p_restart and t < t_end and (mode != "oldfmt" or (t > 0 and t % F == 0)):
+                s.append(["R" if mode == "oldfmt" else "r", w, r.choice(["text", "binary"])])
                 s.append(["s", w, bins, [V.dyadic(r, -8, 8) for _ in range(nd)], frac])   # the repeated step
         seqs.append(s)
     # interleave: a walker that issued an exchange step is blocked until all walkers issued theirs
@@ -90,10 +102,20 @@ def gen_abf(r, cid, big=False):
                 pending.add(w)
                 if len(pending) == n:
                     pending = set()
-        elif ev[0] == "r":
+        elif ev[0] == "x":
+            pending.add(w)
+            if len(pending) == n:
+                pending = set()
+        elif ev[0] in ("r", "R"):
             first[w] = True
             last[w] = t[w]
-    return {"kind": "abf", "id": cid, "output": output, "integrate": r.random() < 0.6, "smp": r.random() < 0.25, "n": n, "nd": nd, "nbins": nbins, "freq": F, "apply": r.random() < 0.7,
+    integrate, smp = r.random() < 0.6, r.random() < 0.25
+    if mode == "oldfmt":
+        smp = False      # (the smp cases have a second bias: the ABF block must be the last one of an unformatted state)
+        if r.random() < 0.5:
+            # at the very end one walker is given an unformatted state cut inside the "last_samples" keyword
+            events.append(["R", r.randrange(n), "binary", True])
+    return {"kind": "abf", "id": cid, "mode": mode, "script": mode == "script", "oldfmt": mode == "oldfmt", "output": output, "integrate": integrate, "smp": smp, "n": n, "nd": nd, "nbins": nbins, "freq": F, "apply": r.random() < 0.7,
             "full": r.choice([1, 2, 200]), "events": events}
 
 
@@ -194,6 +216,24 @@ def abf_expect(case):
             qmap[k] = nq
             nq += 1
             exp[k] = dict(grids(w, nshared), last_step=last[w], restarted=restarted)
+        elif ev[0] == "x":
+            # exchange asked for by the script, at the step every walker is at
+            nt = t[w] if t[w] is not None else 0
+            last[w] = nt
+            tokens.append("a,%d" % w)
+            pending.append((k, w, None))
+            if len(pending) == n:
+                for v in range(n):
+                    nshared[v] = len(own[v])
+                tokens.append("x,%d" % nt)
+                for (pk, pw, psmp) in pending:
+                    tokens.append("q,%d" % pw)
+                    qmap[pk] = nq
+                    nq += 1
+                    exp[pk] = dict(grids(pw, nshared), last_step=nt, restarted=restarted)
+                pending = []
+        elif ev[0] == "R" and len(ev) > 3 and ev[3]:
+            exp[k] = None          # a damaged state: must be refused (checked on the LOAD line)
         else:
             restarted = True
             first[w] = True
@@ -203,7 +243,7 @@ def abf_expect(case):
             qmap[k] = nq
             nq += 1
             exp[k] = dict(grids(w, nshared), last_step=last[w], restarted=True)
-    line = "ABF 0 %d %d %d %d %s" % (n, nc, nd, F, " ".join(tokens))
+    line = "ABF %d %d %d %d %d %s" % (1 if case.get("oldfmt") else 0, n, nc, nd, F, " ".join(tokens))
     return exp, line, qmap, dmap
 
 
@@ -255,9 +295,10 @@ def check_abf(run, exe, model, cases, scratch):
             # every deadlocked case costs its timeouts: two concrete ones are enough
             run.dist("abf:skipped-after-deadlocks")
             continue
-        nrest = sum(1 for e in c["events"] if e[0] == "r")
+        nrest = sum(1 for e in c["events"] if e[0] in ("r", "R"))
         key = "abf n=%d nd=%d F=%d ev=%d r=%d" % (c["n"], c["nd"], c["freq"], len(c["events"]), nrest)
         run.dist("abf:n=%d" % c["n"])
+        run.dist("abf:mode=%s" % c.get("mode", "freq"))
         run.dist("abf:restarts" if nrest else "abf:no-restart")
         run.count(json.dumps(c["events"]), True)
         run.sample({"kind": "abf", "n": c["n"], "nd": c["nd"], "nbins": c["nbins"], "freq": c["freq"],
@@ -282,9 +323,31 @@ def check_abf(run, exe, model, cases, scratch):
                           {"kind": "abf", "case": c})
         tie_ok = True
         for k, ev in enumerate(c["events"]):
+            if out[k] is not None and ev[0] in ("r", "R"):
+                loads = [x for x in out[k][1] if x.startswith("LOAD")]
+                cut = ev[0] == "R" and len(ev) > 3 and ev[3]
+                if cut and any("err=ok" in x for x in loads):
+                    run.dist("abf:cut-state")
+                    run.violation("abf:cut-state-accepted", "walker %d accepted an unformatted state that ends 3 bytes into the \"last_samples\" "
+                                  "keyword as a complete one (%s); case %s" % (ev[1], loads, key), {"kind": "abf", "case": c, "event": k})
+                    break
+                if cut:
+                    run.dist("abf:cut-state")
+                if not cut and not any("err=ok" in x for x in loads):
+                    run.violation("abf:own-state-refused", "walker %d could not read the state it (or, for the older format, its predecessor) had written: %s; "
+                                  "case %s" % (ev[1], out[k][1], key), {"kind": "abf", "case": c, "event": k})
+                    break
             if out[k] is None or exp[k] is None:
                 continue
             w, errl, impl = out[k]
+            if impl is not None and c.get("script"):
+                # before the first call of "share" the local grids do not exist yet (nothing was exchanged: zero), and the
+                # step of the last exchange plays no part (no frequency: exchanges happen when the script says so)
+                e_ = exp[k]
+                impl = dict(impl, last_step=e_["last_step"])
+                for f_ in ("ocnt", "osum"):
+                    if impl.get(f_) is None:
+                        impl[f_] = [0] * len(e_[f_]) if f_ == "ocnt" else [0.0] * len(e_[f_])
             if impl is None:
                 run.violation("abf:no-state", "walker %d printed no shared-ABF state after event %d of case %s" % (w, k, key),
                               {"kind": "abf", "case": c, "event": k})
@@ -292,7 +355,10 @@ def check_abf(run, exe, model, cases, scratch):
             e = exp[k]
             exact = not e["restarted"]
             # property oracle on the implementation alone: union exactly once / own contribution recoverable
-            d = same_abf(impl, e, exact)
+            # (a state of the older format does not say what had been exchanged: everything restored counts as exchanged, and the
+            # samples collected since the last exchange are never sent -- C14_abf_union_once_before_repair_refuted; after such a
+            # restart only the tie with the model of that reading rule, w_restart_old, goes on)
+            d = None if (c.get("oldfmt") and e["restarted"]) else same_abf(impl, e, exact)
             if d is not None:
                 what = {"cnt": "global count", "sum": "global gradient sum", "lcnt": "snapshot count", "lsum": "snapshot sum",
                         "ocnt": "local count", "osum": "local sum", "last_step": "shared_last_step"}[d]
@@ -317,7 +383,7 @@ def check_abf(run, exe, model, cases, scratch):
                 run.mismatch("abf", {"case": c, "event": k, "field": d}, {x: impl[x] for x in ("cnt", "sum", "lcnt", "lsum", "ocnt", "osum", "last_step")}, m)
                 tie_ok = False
                 continue
-            if m.get("ss") is False:
+            if m.get("ss") is False and not c.get("oldfmt"):    # (the small-step machine has the restart of the current state format only)
                 run.mismatch("abf:small-step", {"case": c, "event": k}, "schedule executed by the walkers",
                              "SharedModel.sstep refuses an action of this schedule or ends in different grids")
                 tie_ok = False
@@ -958,7 +1024,19 @@ def gen_czar(r, cid, big=False):
     T = r.randint(4, 9)
     steps = [[(r.randint(0, nb - 1), r.choice([0.5, 0.25, 0.75]), V.dyadic(r, -4, 4)) for _ in range(n)] for _ in range(T)]
     gather_at = sorted(set([T - 1] + ([r.randint(1, T - 1)] if r.random() < 0.5 else [])))
-    return {"kind": "czar", "id": cid, "n": n, "nbins": nb, "freq": r.choice([2, 3, 100]), "steps": steps, "gather_at": gather_at}
+    freq = r.choice([2, 3, 100])
+    # script: no "shared on" in the configuration, the walkers call "cv bias a share" every freq steps (the gathers come after
+    # the first call: before it the bias does not share at all)
+    script = r.random() < 0.35
+    if script:
+        freq = r.choice([2, 3])
+        gather_at = [t for t in gather_at if t >= freq - 1]
+    # restarts of the whole job (every walker through its own state file, after the gather of that step if there is one)
+    restart_at = {}
+    if r.random() < 0.5:
+        for _ in range(r.randint(1, 2)):
+            restart_at[str(r.randint(1, T - 2))] = [r.choice(["text", "binary"]) for _ in range(n)]
+    return {"kind": "czar", "id": cid, "n": n, "nbins": nb, "freq": freq, "script": script, "restart_at": restart_at, "steps": steps, "gather_at": gather_at}
 
 
 def check_czar(run, exe, model, cases, scratch):
@@ -970,6 +1048,34 @@ def check_czar(run, exe, model, cases, scratch):
             res, stats = run_twice(scen.run_czar, exe, c, scratch, timeout=15.0)
         except W.WalkerTimeout as e:
             run.violation("czar:gather-deadlock", "the walkers did not complete the collective CZAR gather (%s)" % str(e)[:200], {"kind": "czar", "case": c})
+            continue
+        run.dist("czar:script-enabled" if c.get("script") else "czar:shared-on")
+        # restart of a walker = identity on everything it holds (SharedModel.w_restart), the z grids included
+        rbad = False
+        for (t, w_, fmt, b, a, msgs) in c.get("_restarts", []):
+            run.dist("czar:restart")
+            if not any(x.startswith("LOAD") and "err=ok" in x for x in msgs):
+                run.violation("czar:own-state-refused", "eABF walker %d could not read the %s state it had just written after step %d: %s" % (w_, fmt, t, msgs),
+                              {"kind": "czar", "case": c, "step": t})
+                rbad = True
+                break
+            if a is None or b is None:
+                run.violation("czar:no-state", "walker %d printed no state around its restart after step %d" % (w_, t), {"kind": "czar", "case": c})
+                rbad = True
+                break
+            def norm(d, f_):
+                v = d.get(f_)
+                return v if v is not None else [0] * len(d["cnt" if f_ == "ocnt" else "sum"])
+            diff = [f_ for f_ in ("cnt", "lcnt", "ocnt", "zcnt") if norm(a, f_) != norm(b, f_)] + \
+                   [f_ for f_ in ("sum", "lsum", "osum", "zsum") if any(not close(x, y, False) for x, y in zip(norm(a, f_), norm(b, f_)))]
+            if diff and c.get("script") and diff == [f_ for f_ in diff if f_ in ("lcnt", "lsum")] and b.get("shared_on") == 0:
+                diff = []     # sharing not enabled yet: the snapshot grids are not in use (and not saved)
+            if diff:
+                run.violation("czar:restart-changes-grids", "eABF walker %d, restart through a %s state after step %d: %s differ(s): before %s, after %s"
+                              % (w_, fmt, t, diff, {f_: b.get(f_) for f_ in diff}, {f_: a.get(f_) for f_ in diff}), {"kind": "czar", "case": c, "step": t})
+                rbad = True
+                break
+        if rbad:
             continue
         lines = []
         wrapped = [(t, w_, k_) for (t, dumps, pr, before) in res for w_, d in enumerate(list(dumps) + list(before)) if d
